@@ -108,7 +108,10 @@ func (dev *RoachDevice) samplePacket() error {
 	dev.nextS = FrameIndex(header.Nsamp) + FrameIndex(header.Sampnum)
 	dev.nchan = int(header.Nchan)
 	dev.unwrap = make([]*PhaseUnwrapper, dev.nchan)
-	biaslevel := dev.unwrapOpts.calcBiasLevel()
+	// calcBiasLevel assumes that 2^16 is one ϕ0 (Abaco); a ROACH ϕ0 is 2^roachFractionBits, so scale the bias level.
+	// Unscaled it is 1.52 ϕ0, leaving the allowed-step window [-0.02,+0.98] ϕ0 (or its mirror image), which
+	// "unwraps" even a constant signal by one ϕ0 per sample.
+	biaslevel := dev.unwrapOpts.calcBiasLevel() >> (16 - roachFractionBits)
 	pulseSign := dev.unwrapOpts.PulseSign
 	invertData := false // not implemented for ROACH at this time
 	for i := range dev.unwrap {
